@@ -104,6 +104,26 @@ def threepoint_kernel(o):
     o.note("no refinement claim for the three-point rule (front guard): equivalence with the four-point result is bounded only")
 
 
+
+@obligation('C02', 'kernels.c-types', functions=[EXT + 'fourpoint_loop', EXT + 'threepoint_loop', EXT + '_max'])
+def kernel_ctypes(o):
+    """static obligation behind 'C double = real': every floating-point local and memoryview of the compiled kernels is declared `double` (no narrowing to `float`:
+    the comparisons of the four-point / three-point rule would be carried out with 24 bit mantissas on 64 bit turning points), every index / counter is declared
+    size_t or Py_ssize_t (the range obligations of the kernel generators are stated for those types)"""
+    from pv import extract
+    mod = extract.load_module('pylife.stress.rainflow.extension')
+    table = mod.pyx_meta.get('ctypes', {})
+    o.shape('the C type declarations of both kernels were extracted', all(f in table and len(table[f]) >= 5 for f in ('fourpoint_loop', 'threepoint_loop')), sorted(table))
+    for fn in ('fourpoint_loop', 'threepoint_loop', '_max'):
+        decl = table.get(fn, {})
+        floats = {v: t for v, t in decl.items() if any(w in t for w in ('double', 'float'))}
+        ints = {v: t for v, t in decl.items() if v not in floats}
+        o.prove(f'{fn}: every floating-point variable is declared double ({len(floats)} declarations)', z3.BoolVal(all(t.replace('[]', '').strip() == 'double' for t in floats.values())), kind='ctype')
+        o.prove(f'{fn}: every integer variable is declared size_t or Py_ssize_t ({len(ints)} declarations)',
+                z3.BoolVal(all(t.replace('[]', '').strip() in ('size_t', 'Py_ssize_t') for t in ints.values())), kind='ctype')
+    o.note("declared types: " + "; ".join(f"{fn}: " + ", ".join(f"{v}:{t}" for v, t in sorted(table.get(fn, {}).items())) for fn in ('fourpoint_loop', 'threepoint_loop', '_max')))
+
+
 @obligation('C02', 'fkm.process.loop', functions=[FKM + '.process'])
 def fkm_process(o):
     """FKMDetector.process: no IndexError (pop / [-1] / [-2] only on long enough residual lists), the primary-path counter stays >= 1,
@@ -267,7 +287,7 @@ def b_detectors(ctx):
     from contracts.rainflow_bounded import run, signals
     from specs.rainflow_spec import TP, M4, MH
     A, N = (4, 9) if ctx.tier == 'quick' else (5, 9)
-    ctx.bound = f"all signals over alphabet {{0..{A-1}}} of length 2..{N} (ties, plateaus, constant stretches included)"
+    ctx.bound = f"all signals over alphabet {{0..{A-1}}} of length 2..{N} (ties, plateaus, constant stretches included); plus 302 (thorough 3002) seeded signals k*1000 + m*1e-5 with neighbouring ranges closer than single precision"
     ctx.rule = "non-trivial: at least one closed cycle; distinct by signal"
     ctx.exhaustive = True
     for s in signals(A, N, 2):
@@ -300,4 +320,28 @@ def b_detectors(ctx):
         hc, hres = MH([float(s[p]) for p in TP(s)])
         if list(zip(rk['from'], rk['to'])) != [(float(a), float(b)) for a, b in hc] or rk['residuals'] != [float(v) for v in hres]:
             ctx.fail('C02:fkm!=MH', f'FKM detector on {list(s)}: {list(zip(rk["from"], rk["to"]))} res {rk["residuals"]}; MH: {hc} {hres}', {'signal': list(s)})
+    # near-tie ranges: neighbouring ranges that differ by ~1e-8 relative (beyond single precision), added after seed C02-b narrowed the kernel's range
+    # variables to C float; the spec machines compare in Python floats (doubles)
+    import random
+    rng = random.Random(2002)
+    near = [[1.0, 16777217.0, 0.0, 16777218.0, 5.0], [0.0, 100.0, -1e-06, 101.0, 50.0]]
+    for _ in range(300 if ctx.tier == 'quick' else 3000):
+        near.append([rng.randrange(4) * 1000.0 + rng.randrange(4) * 1e-5 for _ in range(rng.randrange(5, 13))])
+    for s in near:
+        if not ctx.mine():
+            continue
+        cyc, res = M4(s)
+        ctx.case(len(cyc) > 0, key=('near-tie',) + tuple(s))
+        r4, _, _ = run('four', [s])
+        got = list(zip(r4['from'], r4['to'], r4['ifrom'], r4['ito']))
+        want = [(float(a), float(b), i, j) for a, b, i, j in cyc]
+        if got != want or r4['residuals'] != [float(v) for v, _ in res]:
+            ctx.fail('C02:fourpoint!=M4:near-tie', f'four-point detector on {list(s)}: cycles {got} residual {r4["residuals"]}; M4: {want} {[float(v) for v, _ in res]}', {'signal': list(s)})
+        r3, _, _ = run('three', [s])
+        if sorted(zip(r3['from'], r3['to'])) != sorted((a, b) for a, b, _, _ in want) or r3['residuals'] != [float(v) for v, _ in res]:
+            ctx.fail('C02:threepoint!=M4:near-tie', f'three-point on {list(s)}: {list(zip(r3["from"], r3["to"]))} res {r3["residuals"]}; M4 {want}', {'signal': list(s)})
+        rk, _, _ = run('fkm', [s])
+        hc, hres = MH([float(s[p]) for p in TP(s)])
+        if list(zip(rk['from'], rk['to'])) != [(float(a), float(b)) for a, b in hc] or rk['residuals'] != [float(v) for v in hres]:
+            ctx.fail('C02:fkm!=MH:near-tie', f'FKM detector on {list(s)}: {list(zip(rk["from"], rk["to"]))} res {rk["residuals"]}; MH: {hc} {hres}', {'signal': list(s)})
     ctx.sample({'signal': [0, 3, 1, 2, 0, 3], 'M4': M4([0, 3, 1, 2, 0, 3])})
